@@ -278,6 +278,80 @@ func runC17(ctx *Ctx, idx int) {
 			ctx.Count("sensor_selectors_without_device_rejected", 1)
 		}
 	}
+	// ---- several hwmon sensor entries in one configuration: every entry is resolved on its own
+	for k := 0; k < 3; k++ {
+		n := 2 + r.Intn(2)
+		var sels []c17SensorSel
+		cfg := configuration.Configuration{}
+		fanFile := filepath.Join(root, "filefan")
+		_ = os.WriteFile(fanFile, []byte("100\n"), 0644)
+		for j := 0; j < n; j++ {
+			sel := c17SensorSel{Chip: r.Intn(len(t.Chips)), Index: 1 + r.Intn(7)}
+			if j > 0 && r.Intn(3) == 0 {
+				sel.Chip = -1 // unknown platform after entries that did bind
+			}
+			if j == 0 && len(t.Chips[sel.Chip].Temps) > 0 {
+				sel.Index = 1 + r.Intn(len(t.Chips[sel.Chip].Temps)) // the first entry usually exists
+			}
+			sels = append(sels, sel)
+			id := fmt.Sprintf("msensor-%d-%d-%d", idx, k, j)
+			cfg.Sensors = append(cfg.Sensors, configuration.SensorConfig{ID: id, HwMon: &configuration.HwMonSensorConfig{Platform: t.platform(sel.Chip), Index: sel.Index}})
+		}
+		first := cfg.Sensors[0].ID
+		cfg.Curves = []configuration.CurveConfig{{ID: first + "-curve", Linear: &configuration.LinearCurveConfig{Sensor: first, Min: 40, Max: 80}}}
+		cfg.Fans = []configuration.FanConfig{{ID: first + "-fan", Curve: first + "-curve", File: &configuration.FileFanConfig{Path: fanFile}}}
+		configuration.CurrentConfig = cfg
+		reg := prometheus.NewRegistry()
+		prometheus.DefaultRegisterer, prometheus.DefaultGatherer = reg, reg
+		var err error
+		p, msg := Guard(func() { _, err = internal.InitializeObjects() })
+		ctx.Eval(1)
+		replay := map[string]interface{}{"tree": t, "sensors": sels}
+		if p {
+			ctx.Violation("sensors:panic:several-entries", firstLines(msg, 6), replay)
+			continue
+		}
+		// the first entry that cannot be resolved must make start-up fail, naming that entry
+		firstBad := -1
+		for j, sel := range sels {
+			if _, ok := t.refSensor(root, sel); !ok {
+				firstBad = j
+				break
+			}
+		}
+		if firstBad >= 0 {
+			if err == nil {
+				cls := "missing-index"
+				if sels[firstBad].Chip < 0 {
+					cls = "unknown-platform"
+				}
+				got := "<not registered>"
+				if s, ok := sensors.GetSensor(cfg.Sensors[firstBad].ID); ok {
+					if hs, ok := s.(*sensors.HwmonSensor); ok {
+						got = hs.Input
+					}
+				}
+				ctx.Violation(fmt.Sprintf("sensors:non-existing-device-silently-bound:%s:entry-%d-of-several", cls, firstBad), fmt.Sprintf("%s: start-up succeeded, entry %d bound to %s", jsonStr(replay), firstBad, got), replay)
+			} else if !c17NamesABadEntry(err.Error(), cfg.Sensors, func(j int) bool { _, ok := t.refSensor(root, sels[j]); return !ok }) {
+				ctx.Violation("sensors:error-does-not-name-the-entry:several-entries", fmt.Sprintf("%s: %v", jsonStr(replay), err), replay)
+			}
+			ctx.Count("multi_entry_configs_rejected", 1)
+			continue
+		}
+		if err != nil {
+			ctx.Violation("sensors:existing-devices-not-bound:several-entries", fmt.Sprintf("%s: %v", jsonStr(replay), err), replay)
+			continue
+		}
+		for j, sel := range sels {
+			want, _ := t.refSensor(root, sel)
+			s, _ := sensors.GetSensor(cfg.Sensors[j].ID)
+			hs, ok := s.(*sensors.HwmonSensor)
+			if !ok || hs.Input != want {
+				ctx.Violation("sensors:bound-to-wrong-device:several-entries", fmt.Sprintf("%s: entry %d want %s", jsonStr(replay), j, want), replay)
+			}
+		}
+		ctx.Nontrivial(fmt.Sprintf("multi|chips%d|%v", len(t.Chips), sels))
+	}
 	if idx < 2 {
 		ctx.Sample(map[string]interface{}{"tree": t})
 	}
@@ -290,4 +364,15 @@ func init() {
 			runC17(ctx, i)
 		}
 	})
+}
+
+// c17NamesABadEntry: the error names at least one of the entries that cannot be resolved (which one is the
+// implementation's choice when several are wrong).
+func c17NamesABadEntry(msg string, entries []configuration.SensorConfig, bad func(int) bool) bool {
+	for j, e := range entries {
+		if bad(j) && strings.Contains(msg, e.ID) {
+			return true
+		}
+	}
+	return false
 }
